@@ -445,7 +445,7 @@ def oracle(case, obs):
             fails.append({"kind": "battery_gain", "detail": f"session {h['session']}: battery charge {h['init']!r} -> {h['charge']!r} "
                           f"(gain {gain!r}) but energy_delivered = {h['delivered']!r}"})
     # (ii) a station's row is 0 wherever no session is connected
-    for i, st in enumerate(sts):
+    for i, st in enumerate([] if stoch else sts):
         mine = [h for h in hist if h["station"] == st]
         for t in range(width):
             if rates[i][t] != 0 and not any(h["arrival"] <= t < h["departure"] for h in mine):
